@@ -32,7 +32,7 @@ PROPS = {
     "C02": dict(extra=["enum", "deep"], profiles=["core", "iters"], level="proof", props=["C02", "SRCrel", "SRCops", "SRCalloc", "SRCstep", "SRCtrav", "INVid", "INVrelations", "INVsiblings_range", "INVtraverse"]),
     "C03": dict(extra=["enum"], profiles=["core", "value"], level="proof", props=["C03", "SRCrel", "SRCops", "SRCalloc", "SRCstep", "INVid", "INVrelations", "INVsiblings_range"]),
     "C04": dict(extra=["enum", "genwrap"], profiles=["core", "alloc", "big"], level="proof", props=["C04", "SRCrel", "SRCops", "SRCalloc", "SRCstep", "INVid", "INVrelations", "INVsiblings_range"]),
-    "C05": dict(extra=["enum"], profiles=["core", "alloc"], level="proof", props=["C05", "SRCrel", "SRCops", "SRCalloc", "SRCstep", "INVid", "INVrelations", "INVsiblings_range", "INVerror"]),
+    "C05": dict(extra=["enum"], profiles=["core", "alloc"], level="proof", props=["C05", "SRCrel", "SRCops", "SRCalloc", "SRCstep", "INVid", "INVrelations", "INVsiblings_range", "INVerror", "INVcargo"]),
     "C06": dict(profiles=["alloc", "core"], level="proof", extra=["stamps", "genwrap"], props=["C06", "SRCalloc", "SRCops", "SRCstep", "INVid", "INVarena", "INVnode"]),
     "C07": dict(extra=["enum", "genwrap"], profiles=["alloc", "core", "big"], level="proof", props=["C07", "SRCalloc", "SRCops", "SRCstep", "INVarena", "INVnode"]),
     "C08": dict(extra=["enum", "genwrap"], profiles=["alloc", "core", "value", "big"], level="proof", props=["C08", "SRCalloc", "SRCops", "SRCstep", "INVarena", "INVnode"]),
@@ -44,7 +44,7 @@ PROPS = {
     "C14": dict(profiles=["print"], level="proof", extra=["printdeep"], props=["C14", "SRCtrav", "SRCprint", "INVdebug_pretty_print", "INVtraverse"]),
     "C15": dict(profiles=[], level="proof", extra=["macro"], props=["C15", "INVmacros_lib", "SRCalloc", "SRCrel", "SRCops"]),
     "C16": dict(profiles=["serde"], level="proof", props=["C16", "INVarena", "INVnode", "INVid"]),
-    "C17": dict(profiles=[], level="translation_validation", extra=["features"], props=["C17", "INVlib"]),
+    "C17": dict(profiles=[], level="translation_validation", extra=["features"], props=["C17", "INVlib", "INVcargo"]),
     "C18": dict(profiles=[], level="proof", extra=["selfcheck", "autotraits"], props=["C18", "INVlib", "INVarena", "INVnode", "INVtraverse", "INVdebug_pretty_print"]),
 }
 
